@@ -90,6 +90,7 @@ type node struct {
 	lockset   []string // lock-discipline breaches seen by the History probe
 	locksetChecks int
 	locksetRollbacks int
+	locksetCommittee int
 	committee *crstate.Committee
 	ckp       *checkpoint.Manager
 	ledger    *blockchain.Ledger
@@ -222,6 +223,17 @@ func newNode(dir string, cfg *config.Configuration, minerAddr string, v2active u
 			n.locksetChecks++
 			if !arbiters.VerifLockHeld() {
 				n.lockset = append(n.lockset, "arbiters-history-"+op+"-without-arbiters-lock")
+			}
+		default:
+			for _, ch := range n.committee.VerifHistories() {
+				if h == ch {
+					n.locksetChecks++
+					n.locksetCommittee++
+					if !n.committee.VerifWriteLockHeld() {
+						n.lockset = append(n.lockset, "committee-history-"+op+"-without-committee-write-lock")
+					}
+					break
+				}
 			}
 		}
 	}
